@@ -96,14 +96,14 @@ func (t *Dense) SafeT(axes ...int) (retVal *Dense, err error) {
 	retVal.oe = t.oe
 	retVal.AP = transform
 	if noop {
-		// nothing was permuted: there is no new transpose to undo or to materialize. A transpose that is still pending on
-		// the source is pending on its copy as well (the copy has the source's permuted strides; without the record it
-		// looked contiguous and the flat kernels read its storage in the wrong order)
+		// nothing was permuted: there is no transpose of the copy's own to undo or to materialize. If a transpose is still
+		// pending on the source, the copy holds its elements in the transposed (logical) order instead: a copy with the
+		// source's permuted strides but without the record of the transpose looked contiguous, and the flat kernels read its
+		// storage in the wrong order
 		if !t.old.IsZero() {
-			t.old.CloneTo(&retVal.old)
-			if t.transposeWith != nil {
-				retVal.transposeWith = BorrowInts(len(t.transposeWith))
-				copy(retVal.transposeWith, t.transposeWith)
+			if m, ok := t.Materialize().(*Dense); ok && m != t {
+				ReturnTensor(retVal)
+				return m, nil
 			}
 		}
 		return
